@@ -37,38 +37,77 @@ THEOREMS = [
     (M, "C08.css_missing_semicolon", "two correct blocks with only white space or nothing between them: exactly css-missing-semicolon at the end of the first, style bad"),
     (M, "C08.css_junk_after", "junk after a correct spec: exactly css-bad-content at the end of the last declaration, style bad"),
     (M, "C08.css_junk_before", "junk before a correct spec: exactly css-bad-content at 0, style bad"),
+    # round 4
+    (M, "C08.check_message_text_blind", "check_message returns the same message list when every TextElement / StringLiteral of the localization (and, independently, of the reference) is replaced by arbitrary text; only the single text of a style attribute is structure"),
+    (M, "C08.check_term_text_blind", "check_term returns the same list when every text of the term is replaced"),
+    (M, "C08.check_text_blind", "FluentChecker.check, any locale: re-texted pair and original pair give the same results except for the U+FFFD scan of the source text"),
+    (M, "C08.untranslated_copy_same_verdicts", "a message checked against itself (lint; verbatim copy in compare) gets exactly the messages of any re-texted copy: identical-to-reference is no special case"),
+    (M, "C08.same_skeleton_same_verdicts", "two localizations with the same skeleton (everything but texts) get the same messages against any reference"),
+    (M, "C08.self_check_structure", "check(entity, entity) = duplicate-attribute warnings + check_variants of every visited select + the style verdicts: no value/attribute error, no reference warning, but not empty in general"),
+    (M, "C08.raw_methods_raise", "check_message on a Term / check_term on a Message raise RuntimeError (visit_Term / visit_Message), and only then"),
+    (M, "C08.check_dispatch_total", "FluentChecker.check dispatches on the entry type, so the two RuntimeError branches are unreachable through it"),
+    (M, "C08.checker_history_irrelevant", "one FluentChecker instance over any sequence of set_reference / check calls: every check result is that of a fresh checker of the same locale; the instance changes by set_reference only"),
+    (M, "C08.checker_verdict_independent", "the verdict for a pair after any history on the instance is check(locale, pair)"),
+    (M, "C08.missing_attr_order_irrelevant", "whatever order the set iteration gives the Missing-attribute errors, the sorted result is a permutation and identical outside that run"),
+    (M, "C08.finish_is_sort", "what check does with the message list is that stable sort plus the shift to entry-relative positions"),
+    (M, "C08.css_warning_text", "text of the CSS warning of check_style: only-in-reference (reverse reference order), only-in-l10n (reverse l10n order), unit mismatches (l10n order), joined by ', '; ref_map afterwards = the properties not named"),
+    (M, "C08.css_warning_members", "the parts of that text as a set"),
+    (M, "C08.css_maps_are_dicts", "every map parse_css_spec returns and the reference visitor's css_styles is non-empty with distinct keys"),
+    (M, "C08.css_pop_across_styles", "several style attributes: each is compared with the reference map as popped by the accepted styles before it; without a reference map each with a fresh empty map"),
+    (M, "C08.maybe_style_spec", "maybe_style: silent without a declaration in the reference, else check_style of the reference's map and the parsed localization, category css, error iff the localized value is no CSS spec"),
+    (M, "C08.entity_equals_refl", "FluentEntity.equals(e, e) is true"),
+    (M, "C08.equal_entities_same_verdicts", "two localized messages that FluentEntity.equals calls equal (same AST up to spans/comments: other white space, other comment) get the same severities and texts in the same order from check_message, against any reference"),
+    (M, "C08.equal_entities_same_results", "… and the same multiset of (severity, text) from check (the sort by position may order them differently)"),
+    (M, "C08.verbatim_copy_verdicts", "a localization equal to the reference gets, up to positions, the reference's self-check: empty only if the reference's own shape is clean for the locale"),
+    (M, "C08.equal_terms_same_verdicts", "terms with the same value and attributes up to spans get the same warnings up to positions (FluentTerm.equals alone ignores attributes and does not suffice: witness)"),
 ]
 PARTIAL = [
-    "`badStyle`/`cssBad` in ftl_error_iff is the verdict of the modelled parse_css_spec + check_style (regex level).  It is now related to an "
+    "`badStyle`/`cssBad` in ftl_error_iff is the verdict of the modelled parse_css_spec + check_style (regex level).  It is related to an "
     "independent grammar by theorems: every CssSpec value is accepted with exactly its declarations (css_grammar_accepts, soundness of the grammar "
     "w.r.t. the code) and the defect classes missing semicolon / touching declarations / junk before, between, after are refused with exactly the "
     "stated error (css_spec_errors and instances).  NOT proved: completeness (`cssBad v = false -> v is in the grammar`) for arbitrary texts, e.g. "
-    "`;;` or junk containing m/w/h; that direction is still only checked differentially against the harness's reference grammar `css_reference`",
-    "the order of the `Missing attribute:` errors among themselves comes from a Python set iteration and is not modelled (theorems state the set with multiplicity, the harness canonicalises the run)",
-    "the contents of the CSS *warning* texts (units mismatch / only in l10n / only in reference, incl. the in-place ref_map.pop across duplicate style attributes) are modelled and "
-    "corresponded but have no theorem (the property does not mention them)",
+    "`;;` or junk containing m/w/h; that direction is still only checked differentially against the harness's reference grammar `css_reference` "
+    "(whose only separators are space, tab, CR, LF and whose only digits are 0-9; the style alphabets now hold NBSP, U+3000, VT, FF, U+2003 …, non-ASCII digits)",
+    "the order of the `Missing attribute:` / `Obsolete attribute:` errors among themselves comes from Python set iterations (not sorted in the code, hash dependent: "
+    "observed to vary with PYTHONHASHSEED).  The model fixes one order; missing_attr_order_irrelevant proves that any other order of the run changes the "
+    "sorted result only inside the run, ftl_error_count gives the run as a duplicate-free list = multiset; the harness compares the run as a multiset and "
+    "checks on the real compare/lint REPORT that nothing else depends on PYTHONHASHSEED.  (The Obsolete run is sorted apart by `check`: distinct positions.)",
+    "text-blindness (check_text_blind & co) is stated with the spans as they are, span-blindness (equal_entities_same_verdicts & co) up to positions and, "
+    "through `check`, as a multiset (the sort by position can reorder); the two are not combined into ONE statement about a localization that is re-texted "
+    "AND re-laid-out (they compose: re-text first, then apply the span theorem to the result), and which position each message gets is only in the "
+    "structure theorems / the correspondence",
+    "css_warning_text needs `ref_map` / `l10n_map` to have distinct keys (negation witness in Props: with a duplicate key `pop` removes one pair only); "
+    "css_maps_are_dicts proves that every map the code builds has",
 ]
 TRUSTED = [
-    "hand-written model CLModel/Checks/Fluent.lean of checks/fluent.py + CSSCheckMixin + Checker.check + plurals.get_plural "
-    "(tied to the Python by the `ftl.check` / `css.parse` / `ftl.plural` correspondence)",
+    "hand-written model CLModel/Checks/Fluent.lean + FluentExt.lean of checks/fluent.py + CSSCheckMixin + Checker + plurals.get_plural + FluentEntity.equals "
+    "(tied to the Python by the `ftl.check` / `css.parse` / `ftl.plural` / `c08.rawmsg` / `c08.rawterm` / `c08.seq` / `c08.maybestyle` / `c08.styleseq` / `c08.equals` correspondences)",
     "the fluent.syntax AST handed to the model is what fluent.syntax 0.19 produced (serialised by harness/impl/fluentcheck.py)",
     "regexes (_css_spec, _css_sep, mochibake), MSGS templates, check_style / Checker.check string constants and plural tables are regenerated from /repo on every run",
     "the plural table itself is taken as given (there is no second source for CLDR data in the sandbox): a wrong table entry is followed by model and oracle alike",
+    "`BaseNode.equals` of fluent.syntax (external) is modelled by `entityEquals` for the node types the parser produces; comments are not part of the model's AST "
+    "(they are ignored by FluentEntity.equals; the correspondence confirms it on copies that differ in comments only)",
 ]
 ASSUMPTIONS = [
     "the iteration order of a Python set is unspecified: the run of `Missing attribute:` errors (all at position 0) is compared "
-    "as the reference's attribute order on both sides",
+    "as the reference's attribute order on both sides; in the unsorted lists of check_message (c08.rawmsg) also the `Obsolete attribute:` run",
     "ASTs carry spans (FluentParser(with_spans=True), as compare-locales creates it)",
+    "a FluentChecker object has no attributes beyond those Checker.__init__ sets (locale, extra_tests, reference); the visitors are created per check_message / check_term call",
 ]
 LEVEL_TEXT = ("Lean 4 theorems over an executable transliteration of FluentChecker (the three AST visitors as folds over the exact traversal "
-              "order, check_message/check_term, CSS style check, plural lookup, stable sort): for ALL fluent.syntax ASTs and all locales an error is "
+              "order, check_message/check_term also as raw public methods, CSS style check incl. maybe_style and the in-place pop, plural lookup, stable sort, "
+              "FluentEntity.equals, one checker instance over a sequence of calls): for ALL fluent.syntax ASTs and all locales an error is "
               "reported iff value presence differs, an attribute name is on one side only or a style attribute is refused by parse_css_spec, with exactly "
-              "one error each; text/placeable/variant differences never give errors; terms only ever give warnings; reference, duplicate and plural "
-              "warnings are characterised exactly. The model is tied to the Python by differential runs on FTL generated from a shape grammar and parsed "
-              "by the real parser, for every locale of the plural table, and an independent shape-level oracle checks the claims on the implementation")
+              "one error each; the whole checker is blind to the texts of TextElements/StringLiterals on both sides (also for the untranslated copy, "
+              "whose self-check is characterised); terms only ever give warnings; reference, duplicate, plural and CSS warnings are characterised exactly; "
+              "history on a checker instance and the order of set iterations do not influence verdicts. The model is tied to the Python by differential runs on "
+              "FTL generated from a shape grammar and parsed by the real parser (every reference also as identical / re-texted / re-laid-out copy), for every "
+              "locale of the plural table, through single calls, raw methods and sequences on one instance, and an independent shape-level oracle checks the claims "
+              "on the implementation, on the compare/lint report and across PYTHONHASHSEED values")
 LEVEL_NOTE = ("trusted: Lean kernel; hand-written model validated by full-result correspondence (severity, position, text, category); the AST is an "
               "input (fluent.syntax is external); `not a parseable CSS spec` is the code's own regex verdict in ftl_error_iff, related to an independent "
-              "grammar by css_grammar_accepts / css_spec_errors (soundness and the named defect classes; completeness only in the harness oracle); set iteration order of the Missing-attribute run is canonicalised; plural table taken as given")
+              "grammar by css_grammar_accepts / css_spec_errors (soundness and the named defect classes; completeness only in the harness oracle); set iteration "
+              "order of the Missing-attribute run is canonicalised (and proved irrelevant outside the run); plural table taken as given")
 TECHNIQUE = "Lean 4 proof over an executable model of the three Fluent visitors + differential correspondence + shape-level oracle"
 
 # ------------------------------------------------------------------------------------------ shapes
@@ -87,14 +126,14 @@ UNITS = ["ch", "em", "ex", "rem", "px", "cm", "mm", "in", "pc", "pt"]
 PROPS = ["width", "height", "min-width", "max-width", "min-height", "max-height"]
 
 
-def r_inline(e):
+def r_inline(e, lay=0):
     k = e[0]
     if k == "msg":
         return e[1] + ("." + e[2] if e[2] else "")
     if k == "term":
-        return "-" + e[1] + (r_args(e[2]) if e[2] is not None else "")
+        return "-" + e[1] + (r_args(e[2], lay) if e[2] is not None else "")
     if k == "termattr":
-        return "-" + e[1] + "." + e[2] + (r_args(e[3]) if e[3] is not None else "")
+        return "-" + e[1] + "." + e[2] + (r_args(e[3], lay) if e[3] is not None else "")
     if k == "var":
         return "$" + e[1]
     if k == "str":
@@ -102,60 +141,71 @@ def r_inline(e):
     if k == "num":
         return e[1]
     if k == "fun":
-        return e[1] + r_args((e[2], e[3]))
+        return e[1] + r_args((e[2], e[3]), lay)
     if k == "nest":
-        return "{ " + r_inline(e[1]) + " }"
+        return OPEN[lay] + r_inline(e[1], lay) + CLOSE[lay]
     if k == "selp":
-        return "{ " + r_sel(e[1], 6) + "}"
+        return OPEN[lay] + r_sel(e[1], 6, lay) + "}"
     raise ValueError(k)
 
 
-def r_args(a):
+# layouts: the SAME AST (modulo spans) is written with different white space.  0 = the layout of rounds 1-3;
+# 1 = tight placeables `{x}`, no blank after commas / colons of call arguments, attributes indented by 2, two
+# blanks after `=`, variants indented two columns deeper; 2 = wide placeables `{   x   }`, attributes indented by 7.
+OPEN = ["{ ", "{", "{   "]
+CLOSE = [" }", "}", "   }"]
+ATTR_IND = ["    ", "  ", "       "]
+AFTER_EQ = [" ", "  ", " "]
+VAR_EXTRA = [0, 2, 1]
+
+
+def r_args(a, lay=0):
     pos, named = a
-    items = [r_inline(x) for x in pos]
+    items = [r_inline(x, lay) for x in pos]
     if named:
-        items.append('case: "x"')
+        items.append('case: "x"' if lay != 1 else 'case:"x"')
         if named > 1:
-            items.append("n: 1")
-    return "(" + ", ".join(items) + ")"
+            items.append("n: 1" if lay != 1 else "n:1")
+    return "(" + (", " if lay != 1 else ",").join(items) + ")"
 
 
-def r_sel(part, ind):
+def r_sel(part, ind, lay=0):
     _, sel, variants = part
-    out = [r_inline(sel) + " ->"]
+    out = [r_inline(sel, lay) + (" ->" if lay != 1 else "  ->")]
     for kind, key, default, pat in variants:
-        out.append("\n" + " " * ind + ("*" if default else " ") + "[" + key + "] " + r_pattern(pat, ind + 4))
+        out.append("\n" + " " * (ind + VAR_EXTRA[lay]) + ("*" if default else " ") + "[" + key + "] " + r_pattern(pat, ind + 4, lay))
     out.append("\n" + " " * (ind - 2))
     return "".join(out)
 
 
-def r_pattern(pat, ind=4):
+def r_pattern(pat, ind=4, lay=0):
     out = []
     for p in pat:
         if p[0] == "t":
             out.append(p[1])
         elif p[0] == "p":
-            out.append("{ " + r_inline(p[1]) + " }")
+            out.append(OPEN[lay] + r_inline(p[1], lay) + CLOSE[lay])
         else:
-            out.append("{ " + r_sel(p, ind + 2) + "}")
+            out.append(OPEN[lay] + r_sel(p, ind + 2, lay) + "}")
     return "".join(out)
 
 
 def r_entry(sh):
+    lay = sh.get("layout", 0)
     out = []
     if sh["comment"]:
-        out.append("# about it\n")
+        out.append("# about it\n" if sh["comment"] is True else sh["comment"])
     out.append(("-" if sh["kind"] == "term" else "") + sh["id"] + " =")
     if sh["value"] is not None:
-        out.append(" " + r_pattern(sh["value"]))
+        out.append(AFTER_EQ[lay] + r_pattern(sh["value"], 4, lay))
     for name, pat in sh["attrs"]:
-        out.append("\n    ." + name + " = " + r_pattern(pat, 8))
+        out.append("\n" + ATTR_IND[lay] + "." + name + " =" + AFTER_EQ[lay] + r_pattern(pat, 8, lay))
     out.append("\n")
     return "".join(out)
 
 
 def r_file(sh):
-    return sh["prefix"] + r_entry(sh)
+    return sh["prefix"] + r_entry(sh) + sh.get("suffix", "")
 
 
 # ------------------------------------------------------------------------------------------ shape walks (oracle side)
@@ -220,10 +270,22 @@ def inl_sels(e, deep, out):
             inl_sels(a, deep, out)
 
 
+# The ONLY separators of the size-spec grammar are these four ASCII characters (the white space CSS itself knows besides
+# form feed, and what the code's explicit classes `[ \t\r\n]` list).  Nothing else that Unicode or `str.isspace()` / the
+# regex class `\s` calls white space separates anything: NBSP, U+3000, VT, FF, U+2003, U+2028, U+0085, U+001C-1F … are
+# ordinary (bad) content, and only the ASCII digits 0-9 are digits.
+CSS_WS = " \t\r\n"
+CSS_DIGITS = "0123456789"
+# white space in the sense of `\s` / str.isspace() that is NOT a separator, and look-alikes that are not even that
+UNI_WS = ["\u00a0", "\u3000", "\x0b", "\x0c", "\u2003", "\u2009", "\u2028", "\u2029", "\u1680", "\u202f", "\u205f", "\x85", "\x1c", "\x1f",
+          "\u200b", "\ufeff"]
+UNI_DIGITS = ["\u0661", "\uff11", "\u00b2", "\u0967"]
+
+
 def css_reference(text):
     """independent reference for `parseable CSS size spec`: declarations separated by one semicolon each,
     optional final semicolon, white space around the punctuation"""
-    ws = " \t\r\n"
+    ws = CSS_WS
     i, n = 0, len(text)
 
     def skip(i):
@@ -240,12 +302,12 @@ def css_reference(text):
                     if j < n and text[j] == ":":
                         j = skip(j + 1)
                         k = j
-                        while k < n and text[k] in "0123456789":
+                        while k < n and text[k] in CSS_DIGITS:
                             k += 1
                         ends = [k] if k > j else []          # [0-9]+
                         if k < n and text[k] == ".":          # [0-9]*\.[0-9]+
                             k2 = k + 1
-                            while k2 < n and text[k2] in "0123456789":
+                            while k2 < n and text[k2] in CSS_DIGITS:
                                 k2 += 1
                             if k2 > k + 1:
                                 ends.append(k2)
@@ -440,6 +502,29 @@ class Gen:
             return g + "x"
         return g + ", " + self.css_good()
 
+    def css_uws(self):
+        """a correct spec in which ONE gap (before / between / after the tokens `prop` `:` `number unit` `;`) holds a character
+        that `\\s` would accept but the grammar does not, or the number holds a non-ASCII digit that `\\d` would accept"""
+        if self.r.random() < 0.15:
+            return "%s: %s%s%s" % (self.r.choice(PROPS), self.r.choice(["", "1"]), self.r.choice(UNI_DIGITS), self.r.choice(UNITS))
+        n = self.r.choice([1, 2, 2, 3])
+        pieces = []
+        for i in range(n):
+            pieces += [self.r.choice(PROPS), ":", self.r.choice(["1", "20", ".5", "1.25"]) + self.r.choice(UNITS)]
+            if i < n - 1 or self.r.random() < 0.4:
+                pieces.append(";")
+        k = self.r.randrange(len(pieces) + 1)
+        u = self.r.choice(UNI_WS)
+        out = []
+        for i in range(len(pieces) + 1):
+            gap = self.r.choice(["", "", " "])
+            if i == k:
+                gap = self.r.choice([u, u + " ", " " + u, gap + u + gap])
+            out.append(gap)
+            if i < len(pieces):
+                out.append(pieces[i])
+        return "".join(out).strip(" ") or "x"
+
     def css_soup(self):
         toks = ["width", "height", "min-", "max-", ":", " ", ";", "1", ".5", "em", "px", "rem", "x", "in", "ch", "20", ".", "width:", "1em"]
         return "".join(self.r.choice(toks) for _ in range(self.r.randrange(1, 9))).strip(" ") or "x"
@@ -534,7 +619,9 @@ class Gen:
         return parts
 
     def style_pattern(self, mode=None):
-        mode = mode or self.r.choice(["good", "good", "bad", "soup", "complex", "plain"])
+        mode = mode or self.r.choice(["good", "good", "bad", "soup", "complex", "plain", "uws"])
+        if mode == "uws":
+            return [("t", self.css_uws())]
         if mode == "good":
             return [("t", self.css_good())]
         if mode == "bad":
@@ -687,10 +774,13 @@ def key_of(sh):
 
 
 def run_cases(ctx, out, cases, tag):
-    args = [[r_file(r), r_file(l), key_of(r), key_of(l), loc] for r, l, loc in cases]
+    """cases: (ref shape, l10n shape, locale[, same object]) -> the implementation's result per case (None if skipped)"""
+    cases = [c if len(c) == 4 else (c[0], c[1], c[2], False) for c in cases]
+    args = [[r_file(r), r_file(l), key_of(r), key_of(l), loc, same] for r, l, loc, same in cases]
     res = pool.pmap("impl.fluentcheck", "run_case", args, timeout=5.0, batch=64)
     todo = []
-    for (r, l, loc), a, x in zip(cases, args, res):
+    results = [None] * len(cases)
+    for i, ((r, l, loc, same), a, x) in enumerate(zip(cases, args, res)):
         if "r" not in x:
             out.violations.append({"what": "check crashed/hung: %s %s" % (x.get("exc"), x.get("msg")),
                                    "input": {"ref": a[0], "l10n": a[1], "locale": loc}, "finding": None})
@@ -699,8 +789,11 @@ def run_cases(ctx, out, cases, tag):
         if "skip" in x:
             out.count("%s.skipped.%s" % (tag, x["skip"]))
             continue
+        results[i] = x
         todo.append((r, l, loc, a, x))
-    model = C.run_driver_parallel([t[4]["line"] for t in todo]) if ctx.model_ok else [None] * len(todo)
+    lines = [t[4]["line"] for t in todo] + [t[4]["eqline"] for t in todo if "eqline" in t[4]]
+    model = C.run_driver_parallel(lines) if ctx.model_ok else [None] * len(lines)
+    eq_model = iter(model[len(todo):])
     for (r, l, loc, a, x), mo in zip(todo, model):
         out.evaluations += 1
         out.count("%s.cases" % tag)
@@ -720,9 +813,15 @@ def run_cases(ctx, out, cases, tag):
                                    "result": x["res"], "finding": finding_of(r, l, loc, x, bad)})
         elif mo is not None and mo != canon:
             out.disagreements.append({"op": "ftl.check", "ref": a[0], "l10n": a[1], "locale": loc, "impl": canon, "model": mo})
+        if "eqline" in x:
+            em = next(eq_model)
+            out.count("equals.%s" % x["equals"])
+            if em is not None and em != str(x["equals"]):
+                out.disagreements.append({"op": "c08.equals", "ref": a[0], "l10n": a[1], "impl": str(x["equals"]), "model": em})
         if len(out.samples) < 8 and x["res"] and len(x["res"]) >= 3 and out.distribution.get("sampled." + tag, 0) < 3:
             out.count("sampled." + tag)
             out.samples.append({"ref": a[0], "l10n": a[1], "locale": loc, "result": x["res"]})
+    return results
 
 
 def css_cases(ctx, out):
@@ -773,6 +872,475 @@ def locale_cases(ctx, out):
             out.disagreements.append({"op": "ftl.plural", "locale": l, "impl": x["r"], "model": mo})
 
 
+# ------------------------------------------------------------------------------------------ round 4: copies
+MARK = "~"          # occurs in no generated text: a re-texted element always differs from the original
+
+
+def retext_pattern(pat, rng, changed):
+    """the same pattern with every text part replaced (blanks at the ends kept: they decide how the parser joins / trims)"""
+    out = []
+    for p in pat:
+        if p[0] == "t":
+            core = p[1].strip(" ")
+            lead = p[1][:len(p[1]) - len(p[1].lstrip(" "))] if core else ""
+            trail = p[1][len(p[1].rstrip(" ")):] if core else p[1]
+            new = rng.choice(TEXTS) if rng.random() < 0.7 else core[::-1]
+            if new and new[0] in "[*.":          # keep a continuation line from looking like a variant / attribute
+                new = "x" + new
+            out.append(("t", lead + new + MARK + trail))
+            changed.append(1)
+        elif p[0] == "p":
+            out.append(("p", retext_inline(p[1], rng, changed)))
+        else:
+            out.append(retext_sel(p, rng, changed))
+    return out
+
+
+def retext_sel(p, rng, changed):
+    return ("sel", retext_inline(p[1], rng, changed), [(kind, key, d, retext_pattern(vp, rng, changed)) for kind, key, d, vp in p[2]])
+
+
+def retext_inline(e, rng, changed):
+    k = e[0]
+    if k == "fun":
+        return ("fun", e[1], [retext_inline(a, rng, changed) for a in e[2]], e[3])
+    if k == "nest":
+        return ("nest", retext_inline(e[1], rng, changed))
+    if k == "selp":
+        return ("selp", retext_sel(e[1], rng, changed))
+    if k == "term" and e[2] is not None:
+        return ("term", e[1], ([retext_inline(a, rng, changed) for a in e[2][0]], e[2][1]))
+    if k == "termattr" and e[3] is not None:
+        return ("termattr", e[1], e[2], ([retext_inline(a, rng, changed) for a in e[3][0]], e[3][1]))
+    return e
+
+
+def copies_of(ref, rng):
+    """the three untranslated / re-texted / re-laid-out copies of a reference shape, as localizations:
+    (a) identical source, (b) every text element of the value and of the non-style attributes replaced (nothing else),
+    (c) same AST, other comment / preceding entries / white-space layout.  A `style` attribute keeps its text in all
+    three: there the text IS the structure that is checked."""
+    a = dict(ref)
+    changed = []
+    b = dict(ref)
+    b["value"] = None if ref["value"] is None else retext_pattern(ref["value"], rng, changed)
+    b["attrs"] = [(n, pat if n == "style" else retext_pattern(pat, rng, changed)) for n, pat in ref["attrs"]]
+    c = dict(ref)
+    c["layout"] = rng.choice([1, 2])
+    c["comment"] = rng.choice([False, True, "# another\n# comment\n", "#\n"]) if not ref["comment"] else rng.choice([False, "# else\n"])
+    c["prefix"] = rng.choice(["", "\n\n\n", "zzz = first\n", "## group\n\n", "-t = term\n    .a = b\n"])
+    c["suffix"] = rng.choice(["", "\n", "\n# trailing comment\n", "after = it\n"])
+    return a, (b if changed else None), c
+
+
+def with_copies(cases, rng, limit):
+    """for the first `limit` distinct reference shapes of a family: (ref, copy, locale) for the copies (a) — also as ONE
+    object on both sides, the linter's call —, (b), (c).  The expected findings of (a), (b), (c) are computed from the
+    shapes like everywhere else and are asserted to coincide: text, comments and layout are no input of `expected`."""
+    seen = set()
+    out = []
+    for r, _, loc in cases:
+        k = (r_file(r), loc)
+        if k in seen:
+            continue
+        seen.add(k)
+        if len(seen) > limit:
+            break
+        a, b, c = copies_of(r, rng)
+        group = [(r, a, loc, False), (r, a, loc, True), (r, c, loc, False)] + ([(r, b, loc, False)] if b else [])
+        exp = [expected(r, x[1], loc) for x in group]
+        if any(e != exp[0] for e in exp):
+            raise RuntimeError("oracle construction: expected findings of the copies of one reference differ")
+        out += group
+    return out
+
+
+def directed_copy_refs():
+    """en-US style references whose SHAPE needs a verdict in the target locale even when copied verbatim"""
+    def sel(keys, default):
+        d = max(i for i, k in enumerate(keys) if k == default)       # exactly one default variant
+        return ("sel", ("var", "n"), [("U" if k[0] in "0123456789" else "I", k, i == d, [("t", "%s items" % k)]) for i, k in enumerate(keys)])
+
+    def msg(value, attrs, kind="msg"):
+        return {"kind": kind, "id": "msg", "value": value, "attrs": attrs, "comment": False, "prefix": ""}
+    one_other = [("t", "You have "), sel(["one", "other"], "other")]
+    refs = [
+        msg(one_other, []),                                                             # English plural copied
+        msg([sel(["one"], "one")], []),                                                 # `other` missing
+        msg([sel(["one", "one", "other"], "other")], []),                                # duplicated variant key
+        msg([sel(["1", "1", "other"], "other")], []),                                    # duplicated number key
+        msg([("t", "v")], [("label", [("t", "a")]), ("label", [("t", "b")])]),           # duplicated attribute
+        msg([("t", "v")], [("style", [("t", "wide")])]),                                 # style that is no CSS spec, both sides
+        msg([("t", "v")], [("style", [("t", "width: 1em height: 2px")])]),
+        msg([("t", "v")], [("style", [("t", "width: 1em")]), ("style", [("t", "height: 2em; width: 3px")])]),   # two styles
+        msg(None, [("title", one_other), ("title", [sel(["few", "few"], "few")])]),
+        msg(one_other + [("p", ("msg", "foo", None)), ("p", ("term", "brand", None))], [("label", [("p", ("msg", "foo", "a"))])]),
+        msg(one_other + [("p", ("term", "brand", ([("selp", sel(["one", "two"], "two"))], 0)))], [], kind="term"),
+        msg([("t", "x "), ("p", ("msg", "nope", None))], [("a", [("t", "y")]), ("a", [sel(["zero", "zero"], "zero")])], kind="term"),
+    ]
+    return refs
+
+
+def directed_copies(ctx):
+    rng = ctx.rng("c08", "directed-copies")
+    locs = all_locales()
+    if ctx.tier == "quick":
+        locs = sorted(set(rng.sample(locs, 30) + ["ru", "pl", "ar", "cy", "ja", "lt", "ga-IE", "sl", "en-US", "fr"]))
+    cases = [(r, r, loc) for loc in locs + [None, "xx", "sr-Latn"] for r in directed_copy_refs()]
+    return with_copies(cases, rng, len(cases))
+
+
+# ------------------------------------------------------------------------------------------ round 4: other streams
+def dupstyle_cases(ctx):
+    """several `style` attributes in one message, on one or both sides: `reference.css_styles` is popped from in place by
+    every check_style call, and the reference visitor keeps the LAST style attribute's map"""
+    rng = ctx.rng("c08", "dupstyle")
+    g = Gen(rng)
+    g.cats = ("one", "other")
+    cases = []
+    for i in range(ctx.n(400, 6000)):
+        def styles(n):
+            return [("style", g.style_pattern(rng.choice(["good", "good", "good", "bad", "complex", "uws"]))) for _ in range(n)]
+        def mix(attrs):
+            attrs = list(attrs)
+            for _ in range(rng.choice([0, 0, 1])):
+                attrs.insert(rng.randrange(len(attrs) + 1), g.attr(rng.choice(["label", "title"])))
+            return attrs
+        ref = {"kind": "msg", "id": "msg", "value": [("t", "v")], "attrs": mix(styles(rng.choice([0, 1, 1, 2]))), "comment": False, "prefix": ""}
+        l10n = {"kind": "msg", "id": "msg", "value": [("t", "w")], "attrs": mix(styles(rng.choice([1, 2, 2, 3]))), "comment": False, "prefix": ""}
+        cases.append((ref, l10n, ["de", "pl", None][i % 3]))
+    return cases
+
+
+def canon_raw(canon):
+    """`visitor.messages` before the sort: the runs of `Obsolete attribute:` / `Missing attribute:` errors come out of Python set
+    iterations (`l10n_attrs - ref_attrs`, `ref_attrs - l10n_attrs`); inside such a run the order is not specified — sorted
+    (position, text) on both sides"""
+    parts = canon.split(" | ")
+    if parts[0] != "ok":
+        return canon
+    items = [p_.split(" ") for p_ in parts[1:]]
+
+    def fam(it):
+        t = C.dec(it[2])
+        return 1 if t.startswith("Obsolete attribute: ") else 2 if t.startswith("Missing attribute: ") else 0
+    i = 0
+    while i < len(items):
+        j = i
+        while j < len(items) and fam(items[j]) and fam(items[j]) == fam(items[i]):
+            j += 1
+        if j > i + 1:
+            items[i:j] = sorted(items[i:j], key=lambda it: (int(it[1]), C.dec(it[2])))
+        i = max(j, i + 1)
+    return " | ".join(["ok"] + [" ".join(it) for it in items])
+
+
+def raw_cases(ctx, out):
+    """check_message / check_term called directly with entries of either type (the defensive RuntimeError branches)"""
+    rng = ctx.rng("c08", "raw")
+    g = Gen(rng)
+    locs = all_locales()
+    args = []
+    for i in range(ctx.n(400, 5000)):
+        loc = rng.choice(locs) if rng.random() < 0.9 else rng.choice(EXTRA_LOCALES)
+        cats = plural_cats(loc) or ("one", "other")
+        rk, lk = rng.choice(["msg", "msg", "term"]), rng.choice(["msg", "term"])
+        ref = g.entry(rk, "msg", cats)
+        l10n = g.derive(ref, cats) if rk == lk and rng.random() < 0.5 else g.entry(lk, "msg", cats)
+        args.append([r_file(ref), r_file(l10n), key_of(ref), key_of(l10n), loc, "message"])
+        args.append([r_file(ref), r_file(l10n), key_of(ref), key_of(l10n), loc, "term"])
+    res = pool.pmap("impl.fluentcheck", "raw_case", args, timeout=5.0, batch=64)
+    todo = [(a, x["r"]) for a, x in zip(args, res) if "r" in x and "skip" not in x["r"]]
+    for a, x in zip(args, res):
+        if "r" not in x:
+            out.violations.append({"what": "check_message/check_term crashed the worker: %s" % x.get("exc"), "input": {"ref": a[0], "l10n": a[1]}, "finding": None})
+    model = C.run_driver_parallel([x["line"] for _, x in todo]) if ctx.model_ok else [None] * len(todo)
+    for (a, x), mo in zip(todo, model):
+        out.evaluations += 1
+        out.count("raw.%s.%s" % (a[5], "raises-" + x["exc"] if x.get("exc") else "ok"))
+        l10n_is_term = a[3].startswith("-")
+        # the only raise there may be is the defensive one, and exactly for the wrong entry type
+        want_exc = (a[5] == "message") == l10n_is_term
+        if bool(x.get("exc")) != want_exc or (x.get("exc") and x["exc"] != "RuntimeError"):
+            out.violations.append({"what": "check_%s on a %s: %s" % (a[5], "term" if l10n_is_term else "message", x.get("exc") or "no exception"),
+                                   "input": {"ref": a[0], "l10n": a[1], "locale": a[4]}, "finding": None})
+        elif mo is not None and canon_raw(mo) != canon_raw(x["canon"]):
+            out.disagreements.append({"op": x["line"].split(" ")[0], "ref": a[0], "l10n": a[1], "locale": a[4], "impl": x["canon"], "model": mo})
+        if not x.get("exc") and x.get("n"):
+            out.nontrivial.add("raw|" + x["canon"][:2000])
+
+
+def seq_cases(ctx, out):
+    """SEQUENCES of entity pairs through ONE FluentChecker (compare / lint use one instance per file) vs fresh checkers"""
+    rng = ctx.rng("c08", "seq")
+    g = Gen(rng)
+    locs = all_locales()
+    args, shapes = [], []
+    for i in range(ctx.n(250, 4000)):
+        loc = rng.choice(locs) if rng.random() < 0.9 else rng.choice(EXTRA_LOCALES)
+        cats = plural_cats(loc) or ("one", "other")
+        cases, shp = [], []
+        g.cats = cats
+        shared = None
+        if rng.random() < 0.35:      # ONE reference with a `style`, several localizations of it (a tool that holds its reference)
+            shared = {"kind": "msg", "id": "msg", "value": [("t", "v")], "comment": False, "prefix": "",
+                      "attrs": [("style", g.style_pattern("good")), g.attr("label")] + ([("style", g.style_pattern("good"))] if rng.random() < 0.3 else [])}
+        for j in range(rng.choice([2, 3, 3, 4, 6])):
+            kind = "term" if rng.random() < 0.2 else "msg"
+            ref = g.entry(kind, "msg", cats)
+            k = rng.randrange(5)
+            if shared is not None:
+                l10n = dict(shared, value=[("t", "w%d" % j)],
+                            attrs=[("style", g.style_pattern(rng.choice(["good", "good", "good", "bad"]))) for _ in range(rng.choice([1, 1, 2]))] + [g.attr("label")])
+                cases.append([r_file(shared), r_file(l10n), "msg", "msg", False])
+                shp.append((shared, l10n))
+                continue
+            same = False
+            if k == 0:
+                l10n, same = ref, rng.random() < 0.5
+            elif k == 1 and cases:
+                ref, l10n = shp[-1][0], g.derive(shp[-1][0], cats)          # the same reference again, another localization
+            else:
+                l10n = g.derive(ref, cats) if rng.random() < 0.8 else g.entry(kind, "msg", cats)
+            cases.append([r_file(ref), r_file(l10n), key_of(ref), key_of(l10n), same])
+            shp.append((ref, l10n))
+        setrefs = {}
+        for j in range(len(cases)):
+            if rng.random() < 0.25:
+                setrefs[str(j)] = rng.sample(["msg", "-msg", "foo", "brand-name", "x"], rng.randrange(0, 4))
+        args.append([cases, loc, setrefs])
+        shapes.append(shp)
+    res = pool.pmap("impl.fluentcheck", "seq_case", args, timeout=10.0, batch=16)
+    todo = []
+    for a, shp, x in zip(args, shapes, res):
+        if "r" not in x:
+            out.violations.append({"what": "sequence of checks crashed/hung: %s" % x.get("exc"), "input": {"cases": a[0], "locale": a[1]}, "finding": None})
+            continue
+        todo.append((a, shp, x["r"]))
+    model = C.run_driver_parallel([x["line"] for _, _, x in todo]) if ctx.model_ok else [None] * len(todo)
+    for (a, shp, x), mo in zip(todo, model):
+        out.evaluations += len(x["one"])
+        out.count("seq.sequences")
+        out.count("seq.calls", len(x["one"]))
+        if x["one"] != x["fresh"] or not x["locale_kept"]:
+            j = next((j for j, (p, q) in enumerate(zip(x["one"], x["fresh"])) if p != q), None)
+            out.violations.append({"what": "the verdict of a check depends on what the FluentChecker instance checked before (call %s of the sequence)" % j,
+                                   "input": {"cases": a[0], "locale": a[1], "setrefs": a[2]}, "one_instance": x["one"], "fresh": x["fresh"], "finding": None})
+        elif len(x["one"]) == len(shp):
+            bad = None
+            for (ref, l10n), r_ in zip(shp, x["res"]):
+                bad = bad or (oracle(ref, l10n, a[1], {"res": r_}) if r_ is not None else "check raised")
+            if bad:
+                out.violations.append({"what": "in a sequence through one checker: " + bad, "input": {"cases": a[0], "locale": a[1]}, "finding": None})
+            elif mo is not None and mo != x["canon"]:
+                out.disagreements.append({"op": "c08.seq", "cases": a[0], "locale": a[1], "impl": x["canon"], "model": mo})
+        elif mo is not None and mo != x["canon"]:
+            out.disagreements.append({"op": "c08.seq", "cases": a[0], "locale": a[1], "impl": x["canon"], "model": mo})
+        if any(o != "ok" for o in x["one"]):
+            out.nontrivial.add("seq|" + x["canon"].replace(" ", "")[:3000])
+
+
+def css_warning_reference(ref_value, l10n_values):
+    """independent computation of what check_style yields when it is called for each of `l10n_values` with ONE map of the
+    reference value that it pops from (None = this call gives the error `reference is a CSS spec`)"""
+    def decls(v):
+        out = {}
+        for d in v.replace("\n", " ").replace("\t", " ").replace("\r", " ").split(";"):
+            d = d.strip(" ")
+            if d:
+                prop, _, val = d.partition(":")
+                unit = val.strip(" ").lstrip("0123456789.")
+                out[prop.strip(" ")] = unit
+        return out
+    left = decls(ref_value) if css_reference(ref_value) else {}
+    res = []
+    for v in l10n_values:
+        if not css_reference(v):
+            res.append(None)
+            continue
+        front, back = [], []
+        for prop, unit in decls(v).items():
+            if prop not in left:
+                front.insert(0, "%s only in l10n" % prop)
+            else:
+                ru = left.pop(prop)
+                if ru != unit:
+                    back.append("units for %s don't match (%s != %s)" % (prop, unit, ru))
+        for prop in left:
+            front.insert(0, "%s only in reference" % prop)
+        res.append(", ".join(front + back))
+    return res
+
+
+def style_cases(ctx, out):
+    """maybe_style(ref, l10n) and check_style sequences on one ref_map: model vs implementation, and the texts of the CSS
+    warnings against an independent computation"""
+    rng = ctx.rng("c08", "style")
+    g = Gen(rng)
+
+    def val():
+        return rng.choice([g.css_good, g.css_good, g.css_good, g.css_bad, g.css_uws, g.css_soup])()
+    pairs = [[val(), val()] for _ in range(ctx.n(1200, 20000))]
+    for v in ["width: 1em", "width: 1em; height: 2px", "height: 2px; width: 1em", "width: 1px; width: 2em", "min-width: 3ch"]:
+        for w in ["width: 1em", "width: 2px", "height: 1em", "width: 1em; height: 2px; max-width: 3in", "width: 1px; width: 2em", "", "x"]:
+            pairs.append([v, w])
+    res = pool.pmap("impl.fluentcheck", "style_case", pairs, timeout=5.0, batch=256)
+    model = C.run_driver_parallel(["c08.maybestyle %s %s" % (C.enc(a), C.enc(b)) for a, b in pairs]) if ctx.model_ok else [None] * len(pairs)
+    for (a, b), x, mo in zip(pairs, res, model):
+        out.evaluations += 1
+        if "r" not in x or x["r"].get("exc"):
+            out.violations.append({"what": "maybe_style raised/crashed: %s" % (x.get("exc") or x["r"].get("exc")), "input": {"ref": a, "l10n": b}, "finding": None})
+            continue
+        x = x["r"]
+        out.count("maybe_style." + ("silent" if not x["res"] else x["res"][0][0]))
+        # by construction: nothing unless the reference is a spec; then an error iff the l10n value is not, else the warning text
+        if not css_reference(a):
+            want = None         # maybe_style takes whatever declarations it finds in the reference (its errors are dropped): model only
+        else:
+            w = css_warning_reference(a, [b])[0]
+            want = [["error", 0, "reference is a CSS spec", "css"]] if w is None else ([["warning", 0, w, "css"]] if w else [])
+        if want is not None and x["res"] != want:
+            if [t[0] for t in x["res"]] != [t[0] for t in want] and ("error" in [t[0] for t in x["res"]] + [t[0] for t in want]):
+                out.violations.append({"what": "maybe_style(%r, %r): expected %s, got %s" % (a, b, want, x["res"]), "input": {"ref": a, "l10n": b}, "finding": None})
+            else:      # the text of a CSS warning is not part of the property: correspondence level
+                out.disagreements.append({"op": "c08.maybestyle/reference", "ref": a, "l10n": b, "impl": x["res"], "expected": want})
+        elif mo is not None and mo != x["canon"]:
+            out.disagreements.append({"op": "c08.maybestyle", "ref": a, "l10n": b, "impl": x["canon"], "model": mo})
+        if x["res"]:
+            out.nontrivial.add("style|" + x["res"][0][2])
+    seqs = [[g.css_good(), [val() for _ in range(rng.choice([2, 2, 3, 4]))]] for _ in range(ctx.n(600, 10000))]
+    res = pool.pmap("impl.fluentcheck", "check_style_seq", seqs, timeout=5.0, batch=256)
+    model = C.run_driver_parallel(["c08.styleseq %s %d %s" % (C.enc(a), len(vs), " ".join(C.enc(v) for v in vs)) for a, vs in seqs]) if ctx.model_ok else [None] * len(seqs)
+    for (a, vs), x, mo in zip(seqs, res, model):
+        out.evaluations += 1
+        out.count("styleseq.cases")
+        if "r" not in x:
+            out.violations.append({"what": "check_style sequence crashed: %s" % x.get("exc"), "input": {"ref": a, "l10n": vs}, "finding": None})
+            continue
+        canon = x["r"]["canon"] + " ## " + x["r"]["left"]
+        want = css_warning_reference(a, vs)
+        got = []
+        for part in x["r"]["canon"].split(" || "):
+            f = part.split(" | ")[1:]
+            if not f:
+                got.append("")
+            else:
+                sev, _, txt, _ = f[0].split(" ")
+                got.append(None if C.dec(sev) == "error" else C.dec(txt))
+        if [w is None for w in want] != [w is None for w in got]:
+            out.violations.append({"what": "check_style on one ref_map: errors expected for calls %s, reported for %s" % (
+                [i for i, w in enumerate(want) if w is None], [i for i, w in enumerate(got) if w is None]), "input": {"ref": a, "l10n": vs}, "finding": None})
+        elif want != got:
+            out.disagreements.append({"op": "c08.styleseq/reference", "ref": a, "l10n": vs, "impl": got, "expected": want})
+        elif mo is not None and mo != canon:
+            out.disagreements.append({"op": "c08.styleseq", "ref": a, "l10n": vs, "impl": canon, "model": mo})
+        out.nontrivial.add("styleseq|" + canon[:500])
+
+
+REPORT_ATTRS = ["label", "title", "accesskey", "aria-label", "placeholder", "tooltiptext", "value", "style"]
+HASHSEEDS = ["0", "1", "2", "3"]
+
+
+def strip_where(text):
+    i = text.rfind(" at line ")
+    return text[:i] if i >= 0 else text
+
+
+def canon_report(rep):
+    """the report with everything the property fixes: per message its severity and text (multiset), the summary; the ORDER
+    of the `Missing attribute:` errors among themselves is not fixed by the property (Python set iteration) and is left out
+    by sorting the details"""
+    return (sorted((c, t) for c, t in rep["details"]), sorted(rep["summary"].items(), key=str), sorted(map(tuple, rep["lint"])))
+
+
+def clean_scratch():
+    """remove the files the workers wrote for compare / lint"""
+    import os
+    import shutil
+    scratch = os.environ.get("C08_SCRATCH", "/tmp/wt/c08/scratch")
+    shutil.rmtree(scratch, ignore_errors=True)
+    try:
+        os.rmdir(os.path.dirname(scratch))          # only if nothing else (a scratch copy of the code) lives there
+    except OSError:
+        pass
+
+
+def report_cases(ctx, out):
+    """ContentComparer.compare + toJSON and the linter, the whole run repeated in processes with different PYTHONHASHSEED:
+    what the property fixes of the REPORT (which errors / warnings, for which entity, the counts) must not depend on it;
+    and the messages of the report must be those of `check` on the pair"""
+    rng = ctx.rng("c08", "report")
+    g = Gen(rng)
+    cases = []
+    for i in range(ctx.n(120, 2500)):
+        loc = rng.choice(["ru", "pl", "de", "ar", "ja", "en-GB", "cy"])
+        cats = plural_cats(loc) or ("one", "other")
+        g.cats = cats
+        k = rng.randrange(4)
+        if k < 2:       # many attribute names on one side only: the set iterations of visit_Message
+            names = rng.sample(REPORT_ATTRS, rng.randrange(2, 8))
+            ref = {"kind": "msg", "id": "msg", "value": [("t", "v")] if rng.random() < 0.8 else None,
+                   "attrs": [g.attr(n) for n in names], "comment": rng.random() < 0.3, "prefix": ""}
+            keep = [n for n in names if rng.random() < 0.3]
+            extra = rng.sample(REPORT_ATTRS, rng.randrange(0, 5))
+            l10n = {"kind": "msg", "id": "msg", "value": [("t", "w")] if rng.random() < 0.8 else None,
+                    "attrs": [g.attr(n) for n in keep + extra], "comment": False, "prefix": ""}
+            if l10n["value"] is None and not l10n["attrs"]:
+                l10n["value"] = [("t", "w")]
+        else:
+            kind = "term" if rng.random() < 0.2 else "msg"
+            ref = g.entry(kind, "msg", cats)
+            l10n = ref if k == 2 and rng.random() < 0.5 else g.derive(ref, cats)
+        l10n = dict(l10n, prefix=rng.choice(["", "", "other = thing\n", "junk line\n\n", "  \n", "# c\n\n", "### r\n"]),
+                    suffix=rng.choice(["", "", "\n\n", "more junk {\n", "-t = x\n"]))
+        cases.append((ref, l10n, loc))
+    args = [[r_file(r), r_file(l), loc] for r, l, loc in cases]
+    seeds = HASHSEEDS[:3] if ctx.tier == "quick" else HASHSEEDS
+    runs = [pool.pmap("impl.fluentcheck", "report_case", args, timeout=10.0, batch=32, env={"PYTHONHASHSEED": h}) for h in seeds]
+    direct = pool.pmap("impl.fluentcheck", "run_case", [[a[0], a[1], key_of(r), key_of(l), a[2]] for a, (r, l, _) in zip(args, cases)], timeout=5.0, batch=64)
+    clean_scratch()
+    for i, (a, (r, l, loc)) in enumerate(zip(args, cases)):
+        reps = [run[i].get("r") for run in runs]
+        out.evaluations += len(seeds)
+        out.count("report.cases")
+        if any(rep is None or "exc" in rep for rep in reps):
+            bad = next(rep for rep in reps if rep is None or "exc" in rep)
+            out.violations.append({"what": "compare raised/crashed on a Fluent file pair: %s" % (bad and bad.get("exc")), "input": {"ref": a[0], "l10n": a[1], "locale": loc}, "finding": None})
+            continue
+        if any(rep["hashseed"] != h for rep, h in zip(reps, seeds)):
+            raise RuntimeError("PYTHONHASHSEED did not reach the worker")
+        canon = [canon_report(rep) for rep in reps]
+        if any(c != canon[0] for c in canon):
+            j = next(j for j, c in enumerate(canon) if c != canon[0])
+            out.violations.append({"what": "the report (messages as a multiset, summary, lint results) depends on PYTHONHASHSEED: seed %s vs seed %s" % (seeds[0], seeds[j]),
+                                   "input": {"ref": a[0], "l10n": a[1], "locale": loc}, "reports": [reps[0], reps[j]], "finding": None})
+            continue
+        if any(rep["details"] != reps[0]["details"] for rep in reps):
+            out.count("report.order-of-missing-attributes-varies-with-hashseed")
+            diff = next(rep for rep in reps if rep["details"] != reps[0]["details"])
+            pre = "Missing attribute: "
+            if [d for d in diff["details"] if not d[1].startswith(pre)] != [d for d in reps[0]["details"] if not d[1].startswith(pre)]:
+                out.violations.append({"what": "the order of report lines other than the `Missing attribute:` run depends on PYTHONHASHSEED",
+                                       "input": {"ref": a[0], "l10n": a[1], "locale": loc}, "reports": [reps[0], diff], "finding": None})
+                continue
+        # the report's messages for the pair are those of check(ref, l10n)
+        d = direct[i].get("r")
+        if d and "skip" not in d and d.get("res") is not None:
+            want = sorted((s, m) for s, _, m, _ in d["res"])
+            got = sorted((c, strip_where(t)) for c, t in reps[0]["details"] if t.endswith(" for " + key_of(l)) and c in ("error", "warning"))
+            if want != got:
+                out.violations.append({"what": "the report of compare does not show the verdicts of check: check %s, report %s" % (want, got),
+                                       "input": {"ref": a[0], "l10n": a[1], "locale": loc}, "finding": None})
+            elif want:
+                out.nontrivial.add("report|" + repr(canon[0][0])[:1500])
+            sm = reps[0]["summary"].get(str(loc), {})
+            nerr = sum(1 for c, _ in reps[0]["details"] if c == "error")
+            nwarn = sum(1 for c, _ in reps[0]["details"] if c == "warning")
+            if (sm.get("errors", 0), sm.get("warnings", 0)) != (nerr, nwarn):
+                out.violations.append({"what": "summary counts %s/%s differ from the %d errors / %d warnings listed" % (sm.get("errors"), sm.get("warnings"), nerr, nwarn),
+                                       "input": {"ref": a[0], "l10n": a[1], "locale": loc}, "finding": None})
+
+
 def run(ctx):
     out = Outcome()
     out.rule = ("(1) all pairs of messages over value present/absent x attribute-name sequences over {label,title,style} up to length 2 "
@@ -780,14 +1348,30 @@ def run(ctx):
                 "regional, None) x key sets over the six CLDR categories (6 sampled sets per locale quick, all 63 thorough), messages and terms; "
                 "(3) seeded random reference/localization pairs from the shape grammar (references to messages/terms/attributes in values, "
                 "attributes, function arguments, selectors, term arguments; nested selects; duplicate attributes and variant keys; style "
-                "attributes good/bad/complex; terms; comments and preceding entries), localization derived from the reference by re-texting + "
-                "structural edits; (4) parse_css_spec on generated and exhaustive token strings. non-trivial = the check reports something; "
-                "distinct = distinct canonical result lists")
-    run_cases(ctx, out, structural_pairs(ctx), "structural")
-    run_cases(ctx, out, plural_cases(ctx), "plural")
-    run_cases(ctx, out, random_cases(ctx), "random")
+                "attributes good/bad/complex/with Unicode white space or non-ASCII digits in one gap; terms; comments and preceding entries), "
+                "localization derived from the reference by re-texting + structural edits; (4) parse_css_spec on generated and exhaustive token strings; "
+                "(5) for the distinct references of (1)-(3) and a directed family of references whose shape needs a verdict in the target locale: the "
+                "identical copy (also as one object on both sides), a copy with every text element replaced, a copy in another white-space/comment layout; "
+                "(6) 0-2 style attributes in the reference x 1-3 in the localization; (7) check_message/check_term called directly with all entry-type "
+                "combinations; (8) sequences of 2-6 pairs with set_reference calls through ONE checker vs fresh checkers; (9) maybe_style pairs and "
+                "check_style sequences on one ref_map; (10) compare + lint reports of file pairs under 3 (quick) / 4 PYTHONHASHSEED values. "
+                "non-trivial = the check reports something; distinct = distinct canonical result lists")
+    sp, pc, rc = structural_pairs(ctx), plural_cases(ctx), random_cases(ctx)
+    run_cases(ctx, out, sp, "structural")
+    run_cases(ctx, out, pc, "plural")
+    run_cases(ctx, out, rc, "random")
     css_cases(ctx, out)
     locale_cases(ctx, out)
+    # round 4
+    rng = ctx.rng("c08", "copies")
+    copies = (with_copies(sp, rng, ctx.n(60, 400)) + with_copies([(l, l, loc) for _, l, loc in pc], rng, ctx.n(400, 4000))
+              + with_copies(rc, rng, ctx.n(1000, 20000)) + directed_copies(ctx))
+    run_cases(ctx, out, copies, "copies")
+    run_cases(ctx, out, dupstyle_cases(ctx), "dupstyle")
+    raw_cases(ctx, out)
+    seq_cases(ctx, out)
+    style_cases(ctx, out)
+    report_cases(ctx, out)
     return out
 
 
@@ -795,6 +1379,32 @@ def replay(payload):
     res = []
     for v in payload.get("violations", []):
         i = v["input"]
+        if "cases" in i:          # a sequence through one checker
+            x = pool.pmap("impl.fluentcheck", "seq_case", [[i["cases"], i["locale"], i.get("setrefs", {})]], timeout=20.0)[0]
+            bad = "crashed" if "r" not in x else ("one instance and fresh checkers differ" if x["r"]["one"] != x["r"]["fresh"] else None)
+            res.append({"input": i, "oracle": bad, "finding": None})
+            continue
+        if "css" in i:            # parse_css_spec against the reference grammar
+            x = pool.pmap("impl.fluentcheck", "css_case", [[i["css"]]], timeout=10.0)[0]
+            canon = x.get("r")
+            acc = bool(canon) and canon.startswith("{") and canon.endswith(" None")
+            res.append({"input": i, "oracle": None if canon is not None and acc == css_reference(i["css"]) else "parse_css_spec and the reference grammar differ",
+                        "finding": None})
+            continue
+        if "ref_shape" not in i and "ref" in i and "l10n" in i and isinstance(i["l10n"], str) and "locale" in i:      # the report under several hash seeds
+            reps = [pool.pmap("impl.fluentcheck", "report_case", [[i["ref"], i["l10n"], i["locale"]]], timeout=20.0, env={"PYTHONHASHSEED": h})[0].get("r")
+                    for h in HASHSEEDS]
+            bad = None
+            if any(r_ is None or "exc" in r_ for r_ in reps):
+                bad = "compare raised/crashed"
+            elif any(canon_report(r_) != canon_report(reps[0]) for r_ in reps):
+                bad = "the report depends on PYTHONHASHSEED"
+            else:
+                pre = "Missing attribute: "
+                if any([d for d in r_["details"] if not d[1].startswith(pre)] != [d for d in reps[0]["details"] if not d[1].startswith(pre)] for r_ in reps):
+                    bad = "order outside the Missing-attribute run depends on PYTHONHASHSEED"
+            res.append({"input": i, "oracle": bad, "finding": None})
+            continue
         if "ref_shape" not in i:
             continue
 
@@ -810,4 +1420,5 @@ def replay(payload):
         bad = oracle(r, l, i["locale"], x["r"]) if "r" in x and "skip" not in x["r"] else "crashed"
         res.append({"input": {"ref": i["ref"], "l10n": i["l10n"], "locale": i["locale"]}, "oracle": bad,
                     "finding": finding_of(r, l, i["locale"], x["r"], bad) if bad and bad != "crashed" else None})
+    clean_scratch()
     return {"violates": any(r["oracle"] for r in res), "cases": res}
